@@ -985,6 +985,60 @@ def check_backend(case):
     return _pick(fails)
 
 
+# ----------------------------------------------------------------------------- virtual evidence listed in another state order
+def gen_vstate(tier, seed):
+    rng = O.mk_rng(seed, "c16-vstate")
+    for k in range(16 if tier == "quick" else 80):
+        n = rng.choice((2, 3))
+        names = O.node_names(n, ("long", "x")[k % 2])
+        # connected (BeliefPropagation refuses models whose clique tree is disconnected): a chain plus, for 3 nodes, sometimes the chord
+        edges = [[names[i], names[i + 1]] for i in range(n - 1)] + ([[names[0], names[2]]] if n == 3 and rng.random() < 0.5 else [])
+        cards = {v: rng.choice((2, 3, 3)) for v in names}
+        spec = O.random_bn_spec(rng, names, edges, cards, ("str", "int")[k % 2], zeros=False)
+        v = rng.choice(names)
+        perm = list(range(cards[v]))
+        while perm == sorted(perm):
+            rng.shuffle(perm)
+        yield {"spec": O.spec_to_json(spec), "var": v, "perm": perm, "lik": [str(Fraction(rng.randint(1, 9), 10)) for _ in range(cards[v])],
+               "query": rng.choice([x for x in names if x != v])}
+
+
+def check_vstate(case):
+    """a virtual-evidence table that lists the variable's states in another order (with its own state_names) is the same evidence:
+    it must give the same posterior as the model-order listing, or be refused with ValueError - never a silently different answer"""
+    from pgmpy.factors.discrete import TabularCPD
+    from pgmpy.inference import BeliefPropagation, VariableElimination
+
+    import logging
+    logging.getLogger("pgmpy").setLevel(logging.ERROR)
+    spec = O.spec_from_json(case["spec"])
+    v, q, perm = case["var"], case["query"], case["perm"]
+    st = spec["states"][v]
+    lik = [Fraction(x) for x in case["lik"]]           # likelihood of state i (model order)
+    nodes = spec["nodes"]
+    post = {}
+    for a in O.all_assignments(spec, nodes):
+        w = O.joint_prob(spec, a) * lik[st.index(a[v])]
+        post[a[q]] = post.get(a[q], 0) + w
+    tot = sum(post.values())
+    m = O.make_bn(spec)
+    for eng_cls in (VariableElimination, BeliefPropagation):
+        for order in (list(range(len(st))), perm):
+            ve = TabularCPD(v, len(st), [[float(lik[i])] for i in order], state_names={v: [st[i] for i in order]})
+            try:
+                res = eng_cls(m).query([q], virtual_evidence=[ve], show_progress=False)
+            except ValueError:
+                if order == perm:
+                    continue      # refused: acceptable
+                raise
+            for i, sname in enumerate(res.state_names[q]):
+                got, want = float(res.values[i]), float(post[sname] / tot)
+                if abs(got - want) > 1e-9:
+                    return {"key": f"virtual-evidence:state-order:{eng_cls.__name__}", "what": f"{eng_cls.__name__}.query([{q!r}], virtual evidence on {v!r} listed as "
+                            f"{[st[i] for i in order]}): P({q}={sname!r}) = {got}, expected {want}"}
+    return None
+
+
 def groups(tier):
     gs = []
     for fam in FAMILIES:
@@ -999,6 +1053,9 @@ def groups(tier):
                     bound="5 (12) seeded models x 7 relabellings (tuple / int variable names, int/str/mixed state names, permuted state lists, shuffled "
                           "node/edge/CPD/parent insertion orders, all together), 5 (query, evidence) plans each: VE/BP query, VE(MinFill), MAP value, "
                           "get_state_probability, factor product/marginalize/reduce vs exact Fraction oracle; each case under 8 (16) PYTHONHASHSEEDs"))
+    gs.append(Group("virtual_state_order", gen_vstate, check_vstate, lambda c: True, engine="E3",
+                    bound="16 (80) seeded 2-3 node networks: virtual evidence on one variable listed in model order and in a permuted state order "
+                          "(own state_names), VariableElimination and BeliefPropagation: same posterior or ValueError"))
     gs.append(Group("backend", gen_backend, check_backend, lambda c: True, engine="E3",
                     bound=("numpy vs torch backend: 3 (10) models, VE queries (greedy, MinFill) and factor product/marginalize/maximize/reduce/normalize/divide/sum "
                            "within 1e-5; numpy backend restored in a finally block") if torch_usable() else "SKIPPED: torch is not importable"))
